@@ -298,7 +298,44 @@ pub fn run_c02(cx: &Cx) -> PropResult {
     r.extra = json!({"programs": programs, "disagreements_checked": comparisons, "generated_source": "harness/vcat/src/generated.rs", "generator_params": format!("{:?}", vcat::compiled::GENERATED_PARAMS)});
     r.assumptions = vec!["the model interprets the declaration JSON; the compiled code is the derive output — they share nothing but the declaration".into()];
     known_f24(&mut r);
+    known_f25(&mut r);
     r
+}
+
+#[cfg(feature = "no_keep")]
+fn known_f25(_: &mut PropResult) {}
+
+/// F25 (DESIGN §6): a name that was made optional, then removed, then added again. The writer reserves a string id
+/// for the name at the FieldMadeOptional step (it is a removed name) but writes that step as a position entry of the
+/// NEW field, so the name is never spelled out and the FieldRemoved entry after it cites an id the reader never saw.
+#[cfg(not(feature = "no_keep"))]
+fn known_f25(r: &mut PropResult) {
+    use crate::run::guarded;
+    let mut wrong: Vec<String> = Vec::new();
+    for (a, x) in [(1i32, 2i32), (0, 0), (-1, i32::MAX)] {
+        let v = own::ReOpt { a, x };
+        let bytes = guarded(|| desert::serialize_to_byte_vec(&v));
+        let back = match &bytes {
+            Ok(Ok(b)) => guarded(|| desert::deserialize::<own::ReOpt>(b)),
+            _ => Err("not encoded".into()),
+        };
+        match (&bytes, &back) {
+            (Ok(Ok(_)), Ok(Ok(w))) if *w == v => {}
+            (Err(p), _) | (_, Err(p)) if p != "not encoded" => {
+                r.acc.violation(format!("#[evolution(FieldMadeOptional(\"x\"), FieldRemoved(\"x\"), FieldAdded(\"x\", 5))] struct ReOpt {{ a: i32, x: i32 }} = {v:?}: panic {p}"), json!({"special": "ReOpt"}));
+                return;
+            }
+            _ => wrong.push(format!("{v:?} -> {}", match &back { Ok(Ok(w)) => format!("Ok({w:?})"), Ok(Err(e)) => format!("Err({})", vcat::errinfo(e).kind), Err(e) => e.clone() })),
+        }
+    }
+    r.acc.bump("made_optional_removed_readded_witnesses", 3);
+    if !wrong.is_empty() {
+        r.lines.push(format!(
+            "KNOWN-FINDING: property=C02 F25 a name that was made optional, removed and added again (FieldMadeOptional(\"x\"), FieldRemoved(\"x\"), FieldAdded(\"x\", 5)) does not read its own bytes back: {}",
+            wrong.join("; ")
+        ));
+        *r.acc.known.entry("F25".into()).or_insert(0) += 1;
+    }
 }
 
 /// F24 (DESIGN §6): the macro recognises an optional field by the *spelling* of its type. A field whose type is an
@@ -311,6 +348,13 @@ mod own {
     #[evolution(FieldMadeOptional("m"))]
     pub struct Alias {
         pub m: Maybe,
+    }
+    /// F25: made optional, removed, added again under the same name
+    #[derive(Debug, Clone, PartialEq, desert::BinaryCodec)]
+    #[evolution(FieldMadeOptional("x"), FieldRemoved("x"), FieldAdded("x", 5))]
+    pub struct ReOpt {
+        pub a: i32,
+        pub x: i32,
     }
     /// the same declaration with the type spelled out: the control
     #[derive(Debug, Clone, PartialEq, desert::BinaryCodec)]
